@@ -81,6 +81,35 @@ def dispatch_table(F):
     return out, sm
 
 
+def _const_state(f, op):
+    """variant name of a `State` constant passed by reference (possibly promoted)"""
+    l = is_local(op)
+    for _ in range(4):
+        if l is None:
+            return None
+        ds = cfg.defs_of_local(f, l)
+        if len(ds) != 1 or ds[0][0] != "stmt":
+            return None
+        rv = ds[0][3]["rv"]
+        if rv["k"] == "agg" and rv.get("adt", "").endswith("parser::State"):
+            return rv["variant"]
+        if rv["k"] == "use":
+            c = op_const(rv["a"])
+            if c is not None and c.get("promoted") is not None:
+                for b in f.d["promoted"][c["promoted"]]["blocks"]:
+                    for s in b["stmts"]:
+                        if s["k"] == "assign" and s["rv"]["k"] == "agg" and s["rv"].get("adt", "").endswith("parser::State"):
+                            return s["rv"]["variant"]
+                return None
+            l = is_local(rv["a"])
+        elif rv["k"] in ("ref", "copyforderef"):
+            p = rv["p"]
+            l = p["l"] if all(x["k"] == "deref" for x in p["p"]) else None
+        else:
+            return None
+    return None
+
+
 def end_answered_before_dispatch(F):
     """parse() tests `state == End` and the call of state_machine lies on the 'not End' edge (so the unreachable!() of the End arm is)"""
     P_ = PARSER + "::"
@@ -89,14 +118,25 @@ def end_answered_before_dispatch(F):
     okend = False
     smc = [bb for bb, t, ck, fr in pf.calls() if ck == sm.key]
     for bi, b in enumerate(pf.blocks):
-        if b["cleanup"] or b["term"]["k"] != "switch":
+        t = b["term"]
+        if b["cleanup"] or t["k"] != "switch" or t["dty"] != "bool" or t["vals"] != [0]:
             continue
-        e = cfg.expr_operand(pf, b["term"]["discr"], 8)
-        s = cfg.expr_str(e)
-        if "state" in s and "State::End" in s.replace(" ", "") or ("eq" in s and "state" in s):
-            m, other = cfg.switch_edge_blocks(pf, bi)
-            if smc and 0 in m and cfg.dominated_by_edge(pf, smc[0], bi, m[0]):
-                okend = True
+        e = cfg.expr_operand(pf, t["discr"], 8)
+        is_end_edge, not_end_edge = t["otherwise"], t["targets"][0]
+        while e[0] == "un" and e[1] == "Not":
+            e = e[2]
+            is_end_edge, not_end_edge = not_end_edge, is_end_edge
+        if not (e[0] == "call" and e[1] and ("PartialEq" in e[1]) and e[1].endswith(("::eq", "::ne")) and cfg.expr_fields(cfg.strip_reborrow(e[2][0])[1] if cfg.strip_reborrow(e[2][0])[0] == "ref" else ("x",)) == ["state"]):
+            continue
+        # the constant compared with must be State::End
+        call_t = pf.blocks[e[3]]["term"]
+        v = _const_state(pf, call_t["args"][1])
+        if v != "End":
+            continue
+        if e[1].endswith("::ne"):
+            is_end_edge, not_end_edge = not_end_edge, is_end_edge
+        if smc and cfg.dominated_by_edge(pf, smc[0], bi, not_end_edge) and is_end_edge != not_end_edge:
+            okend = True
     return okend, pf
 
 
